@@ -113,8 +113,12 @@ def one(mon: Monitor, rng: random.Random) -> None:
     oseed = rng.randint(0, 10**6)
     cfg = {"src": gen.gbox_desc(src), "dst": gen.gbox_desc(dst), "kind": kind, "dtype": dtype, "nodata": nodata, "nodata_in_data": nd_kind, "dst_nodata": dst_nodata, "time_axis": tax, "src_chunks": sch, "dst_chunks": dch, "resampling": resampling,
            "scheduler": sched_, "order_seed": oseed}
-    xx = wrap_xr(data, src, nodata=nodata, time=t) if tax else wrap_xr(data, src, nodata=nodata)
-    dd = da.from_array(data, chunks=((1,) + sch) if tax else sch)
+    # memory layout of the source as handed over (Fortran order, reversed / strided views, read-only buffers): same values, the oracle keeps its own copy in `data`
+    form = random.Random(oseed).choice(gen.ARRAY_FORMS)
+    cfg["array_form"] = form
+    handed = gen.array_form(data.copy(), form)
+    xx = wrap_xr(handed, src, nodata=nodata, time=t) if tax else wrap_xr(handed, src, nodata=nodata)
+    dd = da.from_array(handed, chunks=((1,) + sch) if tax else sch)
     xd = wrap_xr(dd, src, nodata=nodata, time=t) if tax else wrap_xr(dd, src, nodata=nodata)
     dkw = {} if dst_nodata is None else {"dst_nodata": dst_nodata}
     a, e = call(lambda: xr_reproject(xx, dst, resampling=resampling, **dkw).values)
@@ -164,6 +168,7 @@ def one(mon: Monitor, rng: random.Random) -> None:
         return mon.fail("chunked", {**cfg, "exc": e, "at": where}, key="chunked-disjoint-raises" if ("far" in kind or "near" in kind) else "chunked-raises", cls=cls)
     if osig:
         _orders.add((sched_, osig))
+    mon.check(bool(np.array_equal(handed, data, equal_nan=True)), "input-unchanged", lambda: {**cfg, "why": "the source array holds other values after reprojection"}, key="input-mutated", cls=form)
     sig = hsig("c13", repr(cfg), osig)
     ok_meta = a.shape == b.shape == ((2, ny, nx) if tax else (ny, nx)) and a.dtype == b.dtype == np.dtype(dtype)
     if not ok_meta:
